@@ -40,7 +40,8 @@ type ModifyStream struct {
 	c2s     chan *spb.ModifyRequest
 	s2c     chan *spb.ModifyResponse
 	abort   chan struct{} // closed by Abort: both directions fail
-	done    chan struct{} // closed when the handler has returned
+	done    chan struct{} // closed when the handler has returned and its status is published
+	hret    chan struct{} // closed as soon as the handler returns (server-side view)
 	cliErr  error         // what the client sees after an abort
 	srvErr  error         // what the server sees after an abort
 	result  error         // handler result
@@ -61,12 +62,13 @@ type ModifyStream struct {
 func (s *Stub) Modify(ctx context.Context, opts ...grpc.CallOption) (grpc.BidiStreamingClient[spb.ModifyRequest, spb.ModifyResponse], error) {
 	st := &ModifyStream{
 		c2s: make(chan *spb.ModifyRequest, window), s2c: make(chan *spb.ModifyResponse, window),
-		abort: make(chan struct{}), done: make(chan struct{}), SendFailAt: -1, RecvFailAt: -1,
+		abort: make(chan struct{}), done: make(chan struct{}), hret: make(chan struct{}), SendFailAt: -1, RecvFailAt: -1,
 	}
 	s.Modifies = append(s.Modifies, st)
 	rt.Go("server.Modify", func() {
 		err := s.Srv.Modify(&modifyServer{st: st})
 		st.result = err
+		rt.Close(st.hret)
 		rt.Close(st.s2c)
 		rt.Close(st.done)
 	})
@@ -192,7 +194,8 @@ func (s *modifyServer) Recv() (*spb.ModifyRequest, error) {
 	sel := rt.NewSelect(false)
 	cm := rt.SelRecv(sel, st.c2s)
 	ca := rt.SelRecv(sel, st.abort)
-	_ = ca
+	cd := rt.SelRecv(sel, st.hret)
+	_, _ = ca, cd
 	switch sel.Wait() {
 	case 0:
 		m, ok := cm.Val2()
@@ -200,8 +203,11 @@ func (s *modifyServer) Recv() (*spb.ModifyRequest, error) {
 			return nil, io.EOF
 		}
 		return m, nil
-	default:
+	case 1:
 		return nil, st.srvErr
+	default:
+		// the handler has returned: the stream's context is cancelled (as in gRPC)
+		return nil, status.Error(codes.Canceled, "wire: context canceled (handler returned)")
 	}
 }
 
@@ -209,9 +215,13 @@ func (s *modifyServer) Send(m *spb.ModifyResponse) error {
 	st := s.st
 	sel := rt.NewSelect(true)
 	ca := rt.SelRecv(sel, st.abort)
-	_ = ca
-	if sel.Wait() == 0 {
+	cd := rt.SelRecv(sel, st.hret)
+	_, _ = ca, cd
+	switch sel.Wait() {
+	case 0:
 		return st.srvErr
+	case 1:
+		return status.Error(codes.Internal, "wire: SendMsg called after the handler returned")
 	}
 	rt.Send(st.s2c, m)
 	return nil
